@@ -192,11 +192,18 @@ def reset_guard_events():
         del log[:]
 
 
-def run_mt(case, h):
+def seed_globals(k):
+    """The global RNGs are put into a state that is a function of the case.  The models are
+    handed their own seed; a second run of a determinism clause uses ANOTHER global state, so
+    that a dependence of the result on the global RNGs is seen."""
+    random.seed(k)
+    np.random.seed(k % (2**32))
+
+
+def run_mt(case, h, global_seed=None):
     import importlib
     HypergraphMT = importlib.import_module(MT).HypergraphMT
-    random.seed(case["seed"])
-    np.random.seed(case["seed"] % (2**32))
+    seed_globals(case["seed"] if global_seed is None else global_seed)
     reset_guard_events()
     model = HypergraphMT(
         n_realizations=case["n_real"], max_iter=case["max_iter"],
@@ -543,14 +550,14 @@ def check_determinism(case, ctx):
     D = classify(case, ctx, nodes, edges, covered)
     label_config(case, ctx)
     out = []
-    for _ in range(2):
+    for run in range(2):
         h = build(case)
-        model, u, w, maxL, ev = run_mt(case, h)
+        model, u, w, maxL, ev = run_mt(case, h, global_seed=case["seed"] + 7919 * run)
         out.append((np.array(u, copy=True), np.array(w, copy=True), float(maxL),
                     model.train_info["loglik"].tolist()))
     (u1, w1, l1, t1), (u2, w2, l2, t2) = out
     require(u1.shape == u2.shape and np.array_equal(u1, u2),
-            lambda: "two fits with seed %d on fresh objects return different u:\n%r\n%r"
+            lambda: "two fits with seed %d on fresh objects (global RNG states differ) return different u:\n%r\n%r"
             % (case["seed"], u1.tolist(), u2.tolist()), key="u-differs")
     require(w1.shape == w2.shape and np.array_equal(w1, w2),
             lambda: "two fits with seed %d on fresh objects return different w:\n%r\n%r"
@@ -570,11 +577,10 @@ def check_hysc(case, ctx):
     ctx.label("weighted_L=%s" % case["weighted_L"])
     N, K = len(nodes), case["K"]
     outs = []
-    for _ in range(2):
+    for run in range(2):
         h = build(case)
         rows = rows_of(h, nodes)
-        random.seed(case["seed"])
-        np.random.seed(case["seed"] % (2**32))
+        seed_globals(case["seed"] + 7919 * run)
         with threadpoolctl.threadpool_limits(limits=1):
             m = np.asarray(HySC(seed=case["seed"]).fit(h, K=K, weighted_L=case["weighted_L"]))
         outs.append(np.array(m, copy=True))
